@@ -1542,3 +1542,507 @@ func isBuiltinNamed(cl *ssa.Call, name string) bool {
 	b, ok := cl.Call.Value.(*ssa.Builtin)
 	return ok && b.Name() == name
 }
+
+// ---------------------------------------------------------------------------
+// DOM/lock-gate (C13, C03): the worker of a cache entry runs the entry's
+// queued tasks only while no event lock is outstanding. A query event places
+// one lock per query request; tasks queued meanwhile (later events, resets,
+// subscribes) wait until every answer has used its lock. Every path of
+// processQueue that runs a queued task has established either that there was
+// no lock set (locks == nil) or that the set has been used up (cap(locks) <= 0
+// after the used locks were cut off).
+func ruleLockGate(c *Ctx) {
+	p := c.P
+	fn := p.Fn("(*rescache.EventSubscription).processQueue")
+	fLocks := p.Field("rescache.EventSubscription.locks")
+	fQueue := p.Field("rescache.EventSubscription.queue")
+	if fn == nil || fLocks == nil || fQueue == nil {
+		c.undecided("(*rescache.EventSubscription).processQueue", "anchor", "-", "not found")
+		return
+	}
+	elemOf := func(t *Tracer, fr *Frame, v ssa.Value) *types.Var {
+		r := t.Resolve(fr, v)
+		u, ok := r.V.(*ssa.UnOp)
+		if !ok || u.Op != token.MUL {
+			return nil
+		}
+		ia, ok := u.X.(*ssa.IndexAddr)
+		if !ok {
+			return nil
+		}
+		f, _ := fieldLoad(t.Resolve(r.Fr, ia.X).V)
+		if f == nil {
+			f, _ = fieldLoad(ia.X)
+		}
+		return f
+	}
+	sp := &Spec{InlineHelpers: true, EdgeLimit: 2}
+	sp.Classify = func(t *Tracer, fr *Frame, in ssa.Instruction) []Ev {
+		call, ok := in.(*ssa.Call)
+		if !ok || call.Call.IsInvoke() || call.Call.StaticCallee() != nil {
+			return nil
+		}
+		if _, isB := call.Call.Value.(*ssa.Builtin); isB {
+			return nil
+		}
+		switch elemOf(t, fr, call.Call.Value) {
+		case fQueue:
+			return []Ev{{Kind: "run-queued"}}
+		case fLocks:
+			return []Ev{{Kind: "run-lock"}}
+		}
+		return nil
+	}
+	sp.Branch = func(t *Tracer, fr *Frame, i *ssa.If, dir bool) []Ev {
+		if x, nn, ok := nilTest(i, dir); ok {
+			if f, _ := fieldLoad(x); f == fLocks {
+				if nn {
+					return []Ev{{Kind: "locks-set"}}
+				}
+				return []Ev{{Kind: "locks-nil"}}
+			}
+		}
+		if x, op, k, ok := cmpConst(i.Cond); ok && k == 0 {
+			if cl, ok := x.(*ssa.Call); ok && isBuiltinNamed(cl, "cap") && len(cl.Call.Args) == 1 {
+				if f, _ := fieldLoad(cl.Call.Args[0]); f == fLocks {
+					set := satisfying(op, k, dir, 3)
+					if len(set) == 1 && set[0] {
+						return []Ev{{Kind: "locks-used-up"}}
+					}
+					return []Ev{{Kind: "locks-left"}}
+				}
+			}
+		}
+		return nil
+	}
+	c.inst(1)
+	tr := runTrace(p, fn, sp)
+	bad := ""
+	nRun := 0
+	for _, path := range tr.Paths {
+		i := indexKind(path, "run-queued")
+		if i < 0 {
+			continue
+		}
+		nRun++
+		pre := path[:i]
+		if !hasKind(pre, "locks-nil") && !hasKind(pre, "locks-used-up") {
+			bad = "a queued task runs on a path that has established neither that no event lock was set nor that the locks are used up: tasks queued behind a query event overtake its pending answers: " + tr.FmtPath(path)
+		}
+		if hasKind(pre, "locks-left") {
+			bad = "a queued task runs although event locks are still outstanding: " + tr.FmtPath(path)
+		}
+	}
+	if nRun == 0 {
+		bad = "no path runs a queued task"
+	}
+	if tr.Trunc {
+		bad = "path budget exhausted"
+	}
+	c.check(bad == "", fnName(fn), "queued tasks of a cache entry run only while no event lock is outstanding", p.Pos(fn.Pos()), fmt.Sprintf("%d paths run queued tasks", nRun), bad)
+}
+
+// ---------------------------------------------------------------------------
+// PAIR/requested-once (C03, C09): the get request for a cache entry goes out on
+// a path that has moved the entry to stateRequested first. The state is what
+// makes a second subscriber arriving before the answer wait for that answer;
+// without the store every subscriber during loading sends a get request of its
+// own, each answer re-initialises the entry (the later one wipes events applied
+// in between) and answers every subscriber again.
+func ruleRequestedOnce(c *Ctx) {
+	p := c.P
+	fn := p.Fn("(*rescache.EventSubscription).addSubscriber")
+	fState := p.Field("rescache.ResourceSubscription.state")
+	kReq := p.ConstInt("rescache.stateRequested", -1)
+	send := p.Method("mq.Client.SendRequest")
+	if fn == nil || fState == nil || kReq < 0 || send == nil {
+		c.undecided("(*rescache.EventSubscription).addSubscriber", "anchor", "-", "not found")
+		return
+	}
+	n := 0
+	for _, g := range p.withNewHelpers(fn) {
+		for _, call := range callsIn(g) {
+			if _, ok := isCallTo(call, send); !ok {
+				continue
+			}
+			n++
+			c.inst(1)
+			// lift the site out of the closures it is nested in, looking for the store at every level
+			ok := false
+			var at ssa.Instruction = call
+			for depth := 0; depth < 6 && at != nil && !ok; depth++ {
+				h := at.Block().Parent()
+				for _, in := range instrsOf(h) {
+					st, isSt := in.(*ssa.Store)
+					if !isSt {
+						continue
+					}
+					fa, isFA := st.Addr.(*ssa.FieldAddr)
+					if !isFA || fieldOfAddr(fa) != fState {
+						continue
+					}
+					if k, isK := constInt(st.Val); isK && k == kReq && dominates(st, at) {
+						ok = true
+					}
+				}
+				if mc := p.parent[h]; mc != nil {
+					at = mc
+				} else {
+					at = nil
+				}
+			}
+			c.check(ok, fnName(g), "a get request goes out only after the entry is marked as requested", p.InstrPos(call), "state = stateRequested dominates the request",
+				"the get request is sent on a path that has not stored stateRequested: every subscriber arriving before the answer sends a request of its own; a later answer re-initialises the entry and wipes the events applied since the first")
+		}
+	}
+	if n == 0 {
+		c.viol(fnName(fn), "a get request goes out only after the entry is marked as requested", p.Pos(fn.Pos()), "no get request found in addSubscriber: anchor lost")
+	}
+}
+
+// ---------------------------------------------------------------------------
+// PAIR/subscribe-answered (C07): every path of Cache.Subscribe either hands the
+// subscriber to the entry (addSubscriber, which answers it when the resource is
+// there) or answers it itself with Loaded(nil, err). A path that does neither
+// leaves a client request without a reply for ever.
+func ruleSubscribeAnswered(c *Ctx) {
+	p := c.P
+	fn := p.Fn("(*rescache.Cache).Subscribe")
+	addSub := p.Method("rescache.EventSubscription.addSubscriber")
+	loaded := p.Method("rescache.Subscriber.Loaded")
+	if fn == nil || addSub == nil || loaded == nil {
+		c.undecided("(*rescache.Cache).Subscribe", "anchor", "-", "not found")
+		return
+	}
+	sp := &Spec{InlineHelpers: true}
+	sp.Classify = func(t *Tracer, fr *Frame, in ssa.Instruction) []Ev {
+		if _, ok := isCallTo(in, addSub); ok {
+			return []Ev{{Kind: "handover", Stop: true}}
+		}
+		if _, ok := isCallTo(in, loaded); ok {
+			return []Ev{{Kind: "answer", Stop: true}}
+		}
+		return nil
+	}
+	pathRule(c, fn, "a subscriber is handed to the cache entry or answered, exactly once, on every path", sp, 2, func(tr *Tracer, path []Ev) string {
+		n := countKind(path, "handover") + countKind(path, "answer")
+		if n == 0 {
+			return "the subscriber is neither handed to the entry nor answered: the client's request never gets a reply"
+		}
+		if n > 1 {
+			return "the subscriber is answered / handed over more than once"
+		}
+		return ""
+	})
+}
+
+// ---------------------------------------------------------------------------
+// PAIR/worker-queue-reset (C07, C03): the connection worker empties the task
+// queue after it has run it, on every path back to waiting for more work. A
+// path that keeps the slice runs every task again on the next wake-up: each
+// request is processed — and answered — twice.
+func ruleWorkerQueueReset(c *Ctx) {
+	p := c.P
+	fn := p.Fn("(*server.wsConn).outputWorker")
+	fQueue := p.Field("server.wsConn.queue")
+	if fn == nil || fQueue == nil {
+		c.undecided("(*server.wsConn).outputWorker", "anchor", "-", "not found")
+		return
+	}
+	n := 0
+	for _, g := range p.withNewHelpers(fn) {
+		live := liveBlocks(g)
+		for _, hb := range g.Blocks {
+			if live != nil && !live[hb] {
+				continue
+			}
+			i := blockIf(hb)
+			if i == nil {
+				continue
+			}
+			fs := map[*types.Var]bool{}
+			condFields(p, i.Cond, 0, fs)
+			body := loopBody(hb)
+			if !fs[fQueue] || len(body) == 0 {
+				continue
+			}
+			// the drain loop: it runs queue elements
+			runs := false
+			for b := range body {
+				for _, in := range b.Instrs {
+					if call, ok := in.(*ssa.Call); ok && call.Call.StaticCallee() == nil && !call.Call.IsInvoke() {
+						if _, isB := call.Call.Value.(*ssa.Builtin); !isB {
+							runs = true
+						}
+					}
+				}
+			}
+			if !runs {
+				continue
+			}
+			n++
+			c.inst(1)
+			resets := func(b *ssa.BasicBlock) bool {
+				for _, in := range b.Instrs {
+					if st, ok := in.(*ssa.Store); ok {
+						if fa, ok := st.Addr.(*ssa.FieldAddr); ok && fieldOfAddr(fa) == fQueue {
+							return true
+						}
+					}
+				}
+				return false
+			}
+			bad := ""
+			seen := map[*ssa.BasicBlock]bool{}
+			var work []*ssa.BasicBlock
+			for _, s := range hb.Succs {
+				if !body[s] {
+					work = append(work, s)
+				}
+			}
+			for len(work) > 0 {
+				b := work[len(work)-1]
+				work = work[:len(work)-1]
+				if seen[b] || (live != nil && !live[b]) {
+					continue
+				}
+				seen[b] = true
+				if b == hb || body[b] {
+					bad = "the worker can come back to running the queue without having emptied it: every task runs again on the next wake-up"
+					break
+				}
+				if resets(b) {
+					continue
+				}
+				succs := b.Succs
+				if bi := blockIf(b); bi != nil && len(b.Succs) == 2 {
+					if v, ok := constBool(bi.Cond); ok {
+						if v {
+							succs = b.Succs[:1]
+						} else {
+							succs = b.Succs[1:]
+						}
+					}
+				}
+				work = append(work, succs...)
+			}
+			c.check(bad == "", fnName(g), "the worker empties the task queue after running it, on every path back to waiting", p.InstrPos(i), "every path from the drain loop's exit back to it stores the queue", bad)
+		}
+	}
+	if n == 0 {
+		c.viol(fnName(fn), "the worker empties the task queue after running it", p.Pos(fn.Pos()), "drain loop not found: anchor lost")
+	}
+}
+
+// ---------------------------------------------------------------------------
+// DOM/resetting-gate (C12, C03): while the re-fetch of a reset is outstanding
+// (ResourceSubscription.resetting) the cached copy is not touched by events —
+// the answer of the re-fetch is diffed against the copy as it was — and no
+// second re-fetch is started. Every application of a state event to the cache
+// (handleEventChange/Add/Remove/Delete from handleEvent) and the start of a
+// re-fetch lie behind resetting == false.
+func ruleResettingGate(c *Ctx) {
+	p := c.P
+	fReset := p.Field("rescache.ResourceSubscription.resetting")
+	he := p.Fn("(*rescache.ResourceSubscription).handleEvent")
+	hr := p.Fn("(*rescache.ResourceSubscription).handleResetResource")
+	if fReset == nil || he == nil || hr == nil {
+		c.undecided("rescache.ResourceSubscription.resetting", "anchor", "-", "not found")
+		return
+	}
+	notResetting := boolFieldGuard(fReset, false)
+	var appliers []*types.Func
+	for _, n := range []string{"handleEventChange", "handleEventAdd", "handleEventRemove", "handleEventDelete"} {
+		if m := p.Method("rescache.ResourceSubscription." + n); m != nil {
+			appliers = append(appliers, m)
+		}
+	}
+	n := 0
+	for _, g := range p.withNewHelpers(he) {
+		for _, call := range callsIn(g) {
+			if _, ok := isCallTo(call, appliers...); !ok {
+				continue
+			}
+			n++
+			c.inst(1)
+			c.check(p.guardedBy(call, notResetting) != nil, fnName(g), "a state event is applied to the cached copy only while no re-fetch is outstanding ("+calleeName(call.Common())+")", p.InstrPos(call), "behind resetting == false",
+				"the event is applied while the re-fetch of a reset is outstanding: the answer is diffed against a copy the clients never saw in that state, and they are sent the change twice or not at all")
+		}
+	}
+	if n < 3 {
+		c.viol(fnName(he), "a state event is applied to the cached copy only while no re-fetch is outstanding", p.Pos(he.Pos()), fmt.Sprintf("only %d applying calls found: anchor lost", n))
+	}
+	// the re-fetch
+	m := 0
+	for _, g := range p.withNewHelpers(hr) {
+		if g.Parent() != nil {
+			continue
+		}
+		for _, in := range instrsOf(g) {
+			st, ok := in.(*ssa.Store)
+			if !ok {
+				continue
+			}
+			fa, ok := st.Addr.(*ssa.FieldAddr)
+			if !ok || fieldOfAddr(fa) != fReset {
+				continue
+			}
+			if v, isC := constBool(st.Val); !isC || !v {
+				continue
+			}
+			m++
+			c.inst(1)
+			c.check(p.guardedBy(st, notResetting) != nil, fnName(g), "a re-fetch is started only when none is outstanding", p.InstrPos(st), "resetting = true behind resetting == false",
+				"a second re-fetch is started while one is outstanding: the first answer lowers the flag, events are applied again, and the second answer is diffed against a copy that already moved on")
+		}
+	}
+	if m == 0 {
+		c.viol(fnName(hr), "a re-fetch is started only when none is outstanding", p.Pos(hr.Pos()), "the flag is never raised: anchor lost")
+	}
+}
+
+// ---------------------------------------------------------------------------
+// DOM/unregister-empty (C13, C09): a query variant is taken out of the entry's
+// index by an unsubscribe only when its last subscriber has gone
+// (len(subs) == 0). Unregistered with subscribers left, the variant no longer
+// receives query events or resets while clients still hold it.
+func ruleUnregisterEmpty(c *Ctx) {
+	p := c.P
+	fn := p.Fn("(*rescache.ResourceSubscription).Unsubscribe")
+	unreg := p.Method("rescache.ResourceSubscription.unregister")
+	fSubs := p.Field("rescache.ResourceSubscription.subs")
+	if fn == nil || unreg == nil || fSubs == nil {
+		c.undecided("(*rescache.ResourceSubscription).Unsubscribe", "anchor", "-", "not found")
+		return
+	}
+	empty := func(i *ssa.If) (bool, bool) {
+		x, op, k, ok := cmpConst(i.Cond)
+		if !ok || k != 0 {
+			return false, false
+		}
+		cl, ok := x.(*ssa.Call)
+		if !ok || !isBuiltinNamed(cl, "len") || len(cl.Call.Args) != 1 {
+			return false, false
+		}
+		if f, _ := fieldLoad(cl.Call.Args[0]); f != fSubs {
+			return false, false
+		}
+		switch op {
+		case token.EQL, token.LEQ:
+			return true, true
+		case token.NEQ, token.GTR:
+			return false, true
+		}
+		return false, false
+	}
+	n := 0
+	for _, g := range p.withNewHelpers(fn) {
+		for _, call := range callsIn(g) {
+			if _, ok := isCallTo(call, unreg); !ok {
+				continue
+			}
+			n++
+			c.inst(1)
+			c.check(p.guardedBy(call, empty) != nil, fnName(g), "an unsubscribe unregisters a query variant only when no subscriber is left", p.InstrPos(call), "behind len(subs) == 0",
+				"the variant is unregistered while subscribers remain: they get no more query events or resets for a resource they still hold")
+		}
+	}
+	if n == 0 {
+		c.note("Unsubscribe does not unregister: nothing to decide")
+	}
+}
+
+// ---------------------------------------------------------------------------
+// DOM/loaded-either (C11, C15): Subscriber.Loaded(resource, err) is called
+// with exactly one of the two. The connection-side implementation touches the
+// resource subscription only where it has established err == nil — also on the
+// path where the connection refused the task (closing): giving the use back
+// there must not dereference the nil resource of a failed load.
+func ruleLoadedEither(c *Ctx) {
+	p := c.P
+	fn := p.Fn("(*server.Subscription).Loaded")
+	if fn == nil || len(fn.Params) < 3 {
+		c.undecided("(*server.Subscription).Loaded", "anchor", "-", "not found")
+		return
+	}
+	var res, errP *ssa.Parameter
+	for _, prm := range fn.Params[1:] {
+		if isErrorType(prm.Type()) {
+			errP = prm
+		} else if _, ok := prm.Type().(*types.Pointer); ok {
+			res = prm
+		}
+	}
+	if res == nil || errP == nil {
+		c.undecided(fnName(fn), "anchor", p.Pos(fn.Pos()), "parameters not recognised")
+		return
+	}
+	// values standing for a parameter: the parameter, and loads of the cell it was spilled to / captured through
+	standsFor := func(v ssa.Value, prm *ssa.Parameter) bool {
+		v = stripConv(v)
+		if v == ssa.Value(prm) {
+			return true
+		}
+		u, ok := v.(*ssa.UnOp)
+		if !ok || u.Op != token.MUL {
+			return false
+		}
+		cell := u.X
+		for d := 0; d < 3; d++ {
+			fv, ok := cell.(*ssa.FreeVar)
+			if !ok {
+				break
+			}
+			mc := p.parent[fv.Parent()]
+			if mc == nil {
+				return false
+			}
+			for i, f2 := range fv.Parent().FreeVars {
+				if f2 == fv {
+					cell = mc.Bindings[i]
+				}
+			}
+		}
+		al, ok := cell.(*ssa.Alloc)
+		if !ok || al.Referrers() == nil {
+			return false
+		}
+		n := 0
+		for _, r := range *al.Referrers() {
+			if st, ok := r.(*ssa.Store); ok && st.Addr == ssa.Value(al) {
+				n++
+				if st.Val != ssa.Value(prm) {
+					return false
+				}
+			}
+		}
+		return n == 1
+	}
+	noErr := func(i *ssa.If) (bool, bool) {
+		for _, d := range []bool{true, false} {
+			if x, nn, ok := nilTest(i, d); ok && !nn && standsFor(x, errP) {
+				return d, true
+			}
+		}
+		return false, false
+	}
+	n := 0
+	for _, g := range p.withNewHelpers(fn) {
+		for _, call := range callsIn(g) {
+			args := callArgs(call.Common())
+			if len(args) == 0 || !standsFor(args[0], res) {
+				continue
+			}
+			if call.Common().IsInvoke() {
+				continue
+			}
+			n++
+			c.inst(1)
+			c.check(p.guardedBy(call, noErr) != nil, fnName(g), "the loaded resource is used only where the load is known to have succeeded ("+calleeName(call.Common())+")", p.InstrPos(call), "behind err == nil",
+				"a method of the resource subscription is called on a path that has not established err == nil: for a failed load the resource is nil — a nil dereference on a cache worker ends the gateway")
+		}
+	}
+	if n == 0 {
+		c.viol(fnName(fn), "the loaded resource is used only where the load is known to have succeeded", p.Pos(fn.Pos()), "no use of the resource parameter found: anchor lost")
+	}
+}
